@@ -101,6 +101,12 @@ def script_stmts(step):
         return [('read', ['A', 'B$']), ('printv', 'A'), ('print', '['), ('printv', 'B$'), ('print', ']')]
     if k == 'RBA':
         return [('read', ['B$', 'A']), ('print', '['), ('printv', 'B$'), ('print', ']'), ('printv', 'A')]
+    if k == 'RAA':
+        return [('read', ['A', 'B']), ('printv', 'A'), ('printv', 'B')]
+    if k == 'RAAS':
+        return [('read', ['A', 'B', 'C$']), ('printv', 'A'), ('printv', 'B'), ('print', '['), ('printv', 'C$'), ('print', ']')]
+    if k == 'RSA':
+        return [('read', ['C$', 'A']), ('print', '['), ('printv', 'C$'), ('print', ']'), ('printv', 'A')]
     if k == 'REST':
         return [('restore', step[1])]
     raise CheckError(step)
@@ -270,6 +276,56 @@ def work_restore(shard):
     return part
 
 
+# trapped leg: READs that fail part-way, the program carrying on -------------------------------
+
+TRAP_CONTENTS = [0, 1, 6, 7, 10]     # numbers, number+quoted, non-numeric, quoted+number, three numbers
+TRAP_STEPS = [('RA',), ('RS',), ('RAA',), ('RAAS',), ('RSA',), ('REST', None)]
+
+
+def trapped_cases(quick):
+    import itertools
+    out = []
+    for k in (1, 2):
+        for contents in itertools.product(TRAP_CONTENTS, repeat=k):
+            for place in ([(1,)] if k == 1 else [(1, 2), (1, 1)]):
+                for script in itertools.product(TRAP_STEPS, repeat=2 if quick else 3):
+                    if script[0][0] == 'REST' or not any(len(x[0]) > 2 for x in script):
+                        continue       # at least one multi-variable READ
+                    out.append((contents, place, script))
+    return out
+
+
+def work_trapped(shard):
+    part = Partial()
+    runner = Runner()
+    c = None
+    for contents, place, script in shard:
+        data = layout_lines(contents, place, 'bare')
+        # run the script, then read whatever is left one item at a time
+        tail = [('RS',)] * 3
+        lines = dict(program(data, list(script) + tail, False))
+        for n in list(lines):
+            st = lines[n]
+            if st and st[0][0] == 'read':
+                # the values are printed only if the READ went through: what a variable holds after
+                # a READ that failed on it is not specified (GW-BASIC assigns 0 before raising)
+                lines[n] = [('let', 'H', ('c', 0)), st[0], ('if', ('rel', '=', ('v', 'H'), ('c', 0)), None)] + st[1:]
+        lines[5] = [('onerror', 900)]
+        lines[900] = [('print', 'E'), ('printerr',), ('let', 'H', ('c', 1)), ('resume', 'next')]
+        lines = sorted(lines.items())
+        case = {'leg': 'trapped', 'contents': list(contents), 'place': list(place), 'script': [list(x) for x in script],
+                'program': [t.decode('latin-1') for t in MB.program_text(lines)]}
+        cls = 'trapped/k%d/%s' % (len(contents), '+'.join(x[0] for x in script))
+        outcomes, res = judge(part, runner, lines, case, lambda oc, rs: 'trapped/exp-%s' % final_kind(oc[0]))
+        part.n += 1
+        part.classes.add('%s/%s' % (cls, 'errs%d' % min(3, outcomes[0].trace.count('E'))))
+        part.outcome(final_kind(outcomes[0]))
+        c = case
+    if c:
+        part.sample(c)
+    return part
+
+
 def legs(ctx):
     kmax = 2 if ctx.quick else 3
     tc = traverse_cases(kmax)
@@ -288,12 +344,19 @@ def legs(ctx):
             bound='%d placements of <= 3 DATA statements x all %d scripts of <= %d steps over READ A, READ A$, '
                   'RESTORE, RESTORE n (n in %s: DATA lines, DATA-less line 90, missing lines)' % (
                       len(layouts), len(scripts), 3 if ctx.quick else 4, RESTORE_TARGETS[1:])),
+        Leg('trapped', list(chunked(trapped_cases(ctx.quick), 100)), work_trapped, exhaustive=True,
+            bound='%d programs under ON ERROR GOTO / RESUME NEXT: 1-2 DATA statements from %d contents x all scripts of '
+                  '%d steps over %d step kinds (single and 2-3-variable READs that can fail part-way, RESTORE), '
+                  'then the remaining items read one by one' % (
+                      len(trapped_cases(ctx.quick)), len(TRAP_CONTENTS), 2 if ctx.quick else 3, len(TRAP_STEPS))),
     ]
 
 
 def replay(ctx, leg, case):
     part = Partial()
     runner = Runner()
+    if case['leg'] == 'trapped':
+        return work_trapped([(tuple(case['contents']), tuple(case['place']), [tuple(x) for x in case['script']])])
     if case['leg'] == 'traverse':
         contents = tuple(case['contents'])
         data = layout_lines(contents, tuple(case['place']), case['filler'])
